@@ -199,6 +199,9 @@ impl Handle {
     }
 
     fn devfn(device: u8, function: u8) -> u8 {
+        // The variant's fields are public, so a handle may not have gone through new_pci()
+        assert!(device < 32);
+        assert!(function < 8);
         (device << 3) | function
     }
 }
